@@ -7,21 +7,21 @@ import tempfile
 
 from .. import core, gen, stages
 
-LEVEL = "translation_validation"
+LEVEL = "proof"
 CLAIM = ("Spec/Warn.lean states the three warning sets over the reference graph of the grammar (undefined = names still standing for "
          "'any word' in the grammar's meaning for the target shell, except `_`; unused = plain definitions whose name occurs in no "
          "statement; unused specialisation = definitions for the target shell whose name occurs in no statement); Props/C15.lean proves "
          "their characterisations (unused_iff, unused_spec_iff, underscore_never_reported, reported_once) for every grammar, and "
-         "warn_unused_eq / warn_unused_spec_eq: for every grammar and shell the model of check.rs accepts, the names in its `unused` map and in its `unusedSpecs` are exactly the spec sets "
-         "(proved through the model's distribute / specialise / resolution-order / resolve passes, Proofs/Warn.lean). On every run, "
+         "warn_undefined_eq / warn_unused_eq / warn_unused_spec_eq: for every grammar and shell the model of check.rs accepts, the names in its `undefined` (minus `_`), `unused` and `unusedSpecs` maps are exactly the three spec sets "
+         "(proved through the model's distribute / specialise / resolution-order / resolve passes: Proofs/Warn.lean, and Proofs/Topo+Expand+Meaning.lean for the dependency-ordered expansion, C02 validation_is_meaning). On every run, "
          "for generated reference structures (names used directly, inside words, only through used / only through unused definitions, "
          "specialised for the target / other shells / both, PATH, DIRECTORY, `_`) x 4 shells: the `warning:` lines of the real binary, read "
          "back at their printed location in the source, must be exactly the spec sets, once each; exit status 0; the script must be "
          "byte-identical to the one compiled with every warned-about definition blanked out; and the model's three maps "
          "(Check.validate) must equal the library's (names and spans).")
-NOTE = ("warn_unused_eq and warn_unused_spec_eq are proved; the same equality for the undefined names (it needs the dependency-ordered expansion) is open and is checked per grammar. Trusted: vh, "
+NOTE = ("All three warn_*_eq theorems are proved over the model of check.rs, which is compared exactly with the library on every case. Not a theorem: 'harmless' (the script is unchanged when the warned-about definitions are blanked out) and the printing of the warnings by main.rs (incl. dropping `_`) — both checked per grammar against the real binary. Trusted: vh, "
         "the regex reading `path:line:col:warning: kind` lines, the generator.")
-TECHNIQUE = "spec sets in Lean (with characterisation theorems) against the warning lines of the real binary + exact model/library correspondence"
+TECHNIQUE = "Lean 4 theorems (model of check.rs computes exactly the spec warning sets, for all grammars) + exact model/library correspondence + warning lines of the real binary against the spec sets"
 DESIGN_REF = "§3 C15"
 
 WARN_RE = re.compile(r"^(.*?):(\d+):(\d+):warning: (Undefined|Unused specialization|Unused)\s*$", re.M)
